@@ -123,6 +123,8 @@ package driver
 //@   mustcall Profile.SetLabel labelled: $arg0 == pbase when $res1 == nil && pbase != nil && aftercall("grabSourcesAndBases", s.DiffBase)
 //@   mustcall Profile.Scale negated: $arg0 == pbase when $res1 == nil && pbase != nil
 //@   mustcall combineProfiles merged: true when $res1 == nil && pbase != nil
+//@   mustcall invoke.Symbolize symbolized: $arg3 == p when $res1 == nil
+//@   mustcall Profile.CheckValid revalidated: $arg0 == p && called(symbolized) when $res1 == nil
 //@   callsite Profile.SetLabel only_diffbase: s.DiffBase && $arg0 == pbase
 //@   callsite Profile.Normalize only_normalize: s.Normalize && $arg1 == pbase
 
